@@ -16,10 +16,10 @@ RULE = ("seeded store histories biased to private objects through every storing 
         "The simulator scans the written file after EVERY simulated write(2) for every registered private byte-string value (unique, >= 12 bytes) and for the per-token master key and mask (known through "
         "the RNG seam); at disk dumps the independent decoder must open the master key with the SO PIN and with the user PIN (same key), decrypt every private value to what the API returned, and all IVs on disk "
         "must be pairwise distinct; every file/directory creation is checked against the configured umask. Distinct+non-trivial: (storing path, object kind, umask, PIN-history class).")
-PROBES = ["db_backend_runs", "writes_scanned", "private_values_registered", "masterkey_registered", "disk_decoded", "ivs_compared", "modes_checked", "pin_changed_then_decoded", "reinit_then_decoded", "upgrade_copy", "private_value_decrypted", "umask_nondefault"]
+PROBES = ["db_backend_runs", "reconfigured", "writes_scanned", "private_values_registered", "masterkey_registered", "disk_decoded", "ivs_compared", "modes_checked", "pin_changed_then_decoded", "reinit_then_decoded", "upgrade_copy", "private_value_decrypted", "umask_nondefault"]
 DEATH_IS_VIOLATION = ()
 
-W = {"open": 3, "login": 4, "logout": 1, "create": 26, "gen": 8, "genpair": 3, "unwrap": 5, "derive": 5, "copy": 6, "upgrade": 6, "setattr": 14, "destroy": 5, "restart": 2, "disk": 7, "setpin": 5, "reinit": 1.5}
+W = {"open": 3, "login": 4, "logout": 1, "create": 26, "gen": 8, "genpair": 3, "unwrap": 5, "derive": 5, "copy": 6, "upgrade": 6, "setattr": 14, "destroy": 5, "restart": 2, "reconf": 2, "disk": 7, "setpin": 5, "reinit": 1.5}
 
 class GW(StoreW):
     def __init__(self, *a, **kw):
@@ -119,6 +119,15 @@ class GW(StoreW):
         self.emit({"act": "disk", "data": True}, tid)
         return True
 
+    def s_reconf(self, tid=0, pid=1):
+        """C_Finalize, a CHANGED configuration file (another objectstore.umask, or the line removed = the owner-only default), C_Initialize: what the first
+        configuration said must not outlive it"""
+        r = self.r
+        v = r.choice([None, None, "0077", "0027", "0007", "0000", "22"])
+        self.emit({"act": "restart", "conf": {"objectstore.umask": v}}, tid)
+        self.reconfs = getattr(self, "reconfs", 0) + 1
+        return True
+
     def s_reinit(self, tid=0, pid=1):
         r = self.r; t = r.choice(self.toks()); tk = self.w.toks[t]
         for s in self.live_sessions(pid, t): self.emit({"f": "C_CloseSession", "s": s.ref}, tid)
@@ -146,7 +155,7 @@ def gen(seed, tier, index):
     n = r.choice([6, 10, 16, 24]) if tier == "quick" else r.choice([10, 20, 40])
     for i in range(n):
         name = g.step(W)
-        if name == "restart": g.relogin_all()
+        if name in ("restart", "reconf"): g.relogin_all()
     g.s_disk()
     return g.plan(disk_secrets=g.secrets)
 
@@ -159,6 +168,12 @@ def check(plan, r):
     w = World(); so = StoreOracle(); pids = hist.pid_track(plan)
     conf_umask = int(plan["knobs"].get("conf", {}).get("objectstore.umask", "0077"), 8)
     if conf_umask != 0o077: st("umask_nondefault")
+    # the configuration can change at a restart: umask in force while op k runs (the restart op itself already runs under the new one)
+    umask_at = []; cur_um = conf_umask
+    for op in plan["tasks"][0]["ops"]:
+        if op.get("act") == "restart" and "conf" in op and "objectstore.umask" in op["conf"]:
+            v_ = op["conf"]["objectstore.umask"]; cur_um = 0o077 if v_ is None else int(v_, 8); st("reconfigured")
+        umask_at.append(cur_um)
     st("private_values_registered", len(plan.get("disk_secrets", [])))
     st("writes_scanned", (r.result or {}).get("fsops", {}).get("write", 0))
     # (i) plaintext / master key on disk at any write instant
@@ -182,10 +197,12 @@ def check(plan, r):
                         call=opname_at(plan, e), op=e.get("op"), secret=e["d"]["secret"].split(":")[0].rstrip("0123456789")))
     # (iv) creation modes
     for e in hist.mons(r, "created"):
+        if e["d"].get("by") == "sqlite": continue     # journal files: SQLite gives them the permissions of their database (reproduced by the VFS stub, nothing of the library's code decides it)
         st("modes_checked")
         mode = int(e["d"]["mode"], 8); req = int(e["d"]["req"], 8)
-        if e["d"]["path"].startswith("/sim/tokens/") and (req & conf_umask & 0o777 or mode & conf_umask & 0o777):
-            viols.append(_v("C06.mode", "%s %s was created with mode %s (requested %s) although objectstore.umask is %04o" % (e["d"]["kind"], e["d"]["path"].split("/")[-1], e["d"]["mode"], e["d"]["req"], conf_umask),
+        um = umask_at[e["op"]] if isinstance(e.get("op"), int) and 0 <= e["op"] < len(umask_at) else umask_at[-1] if umask_at else conf_umask
+        if e["d"]["path"].startswith("/sim/tokens/") and (req & um & 0o777 or mode & um & 0o777):
+            viols.append(_v("C06.mode", "%s %s was created with mode %s (requested %s) although objectstore.umask is %04o%s" % (e["d"]["kind"], e["d"]["path"].split("/")[-1], e["d"]["mode"], e["d"]["req"], um, " (configuration changed at a restart)" if um != conf_umask else ""),
                             call=opname_at(plan, e), op=e.get("op"), kind=e["d"]["kind"], role=role(e["d"]["path"])))
     ivs = {}   # iv -> (file, attr)
     pinchanged = False; reinit = False
